@@ -3,6 +3,7 @@ Line-protocol driver for the correspondence check (Tie B).  Each request line is
 `<op>\t<field>\t…`; each reply is one line.  The functions called here are the
 very definitions the theorems are about.
 -/
+import Std.Data.HashSet
 import JPV.Wire
 import JPV.Spec.Semantics
 import JPV.Impl.Parse
@@ -155,7 +156,8 @@ def decScript : Sexp → Option Impl.ND.Script
   | _ => none
 
 def dedup (xs : List String) : List String :=
-  xs.foldl (fun acc x => if acc.contains x then acc else acc ++ [x]) []
+  (xs.foldl (fun (acc : Std.HashSet String × List String) x =>
+    if acc.1.contains x then acc else (acc.1.insert x, x :: acc.2)) ({}, [])).2.reverse
 
 /-- subject with categories: `q<hex>;` string and a parallel comma-separated list of 2-letter categories -/
 def decSubject (s cats : String) : Option (List Spec.IRe.CChar) := do
